@@ -32,7 +32,7 @@ for p in props:
 
 manifest = {
     "version": 1,
-    "setup_cmd": "cd /verif/harness && CARGO_NET_OFFLINE=true cargo build --release --offline",
+    "setup_cmd": "cd /verif/harness && CARGO_NET_OFFLINE=true cargo build --release --offline && CARGO_NET_OFFLINE=true cargo build --release --offline --no-default-features --target-dir target-novl",
     "hooks": {
         "guard": "--cfg quick_xml_verif",
         "enable": "no source hooks are needed: every monitor observes quick-xml at its public API and injects schedules/faults through the BufRead/AsyncBufRead/Write objects it passes in; the harness builds /repo as a cargo path dependency with features serialize,encoding,async-tokio,overlapped-lists",
